@@ -51,6 +51,11 @@ theorem toData_nodedup (c : Cfg) (h : c.dedup = 0) : ∀ (level : Nat) (v : V) (
       split
       · simp [head3_nodedup c h, strData_nodedup c h, typed]
       · simp [strData_nodedup c h]
+  | _, .obj id tn disp attrs, st => by
+      simp only [toData, plain, seen, h, if_true]
+      split
+      · simp [strData_nodedup c h, attrsData_nodedup c h attrs, ptypeEv]
+      · simp [strData_nodedup c h]
 theorem listData_nodedup (c : Cfg) (h : c.dedup = 0) : ∀ (vs : List V) (st : St), (listData c vs st).1 = plainList c vs
   | [], _ => by simp [listData, plainList]
   | v :: vs, st => by simp [listData, plainList, toData_nodedup c h 1 v, listData_nodedup c h vs]
@@ -69,6 +74,11 @@ theorem skeyData_nodedup (c : Cfg) (h : c.dedup = 0) : ∀ (es : List (V × V)) 
   | [], _ => by simp [skeyData, plainSKeys]
   | (k, v) :: es, st => by
       simp [skeyData, plainSKeys, strData_nodedup c h, toData_nodedup c h 1 v, skeyData_nodedup c h es]
+theorem attrsData_nodedup (c : Cfg) (h : c.dedup = 0) : ∀ (as : List (String × V)) (st : St),
+    (attrsData c as st).1 = plainAttrs c as
+  | [], _ => by simp [attrsData, plainAttrs]
+  | (k, v) :: as, st => by
+      simp [attrsData, plainAttrs, strData_nodedup c h, toData_nodedup c h 1 v, attrsData_nodedup c h as]
 end
 
 mutual
@@ -87,6 +97,7 @@ theorem plain_congr (c c' : Cfg) (h1 : c'.rich = c.rich) (h2 : c'.bin = c.bin) (
   | .sens _ v => by simp [plain, h1, plain_congr c c' h1 h2 h3 v]
   | .bin _ _ => by simp [plain, h1, h2]
   | .leaf _ _ _ _ => by simp [plain, h1]
+  | .obj _ _ _ as => by simp [plain, h1, plainAttrs_congr c c' h1 h2 h3 as]
 theorem plainList_congr (c c' : Cfg) (h1 : c'.rich = c.rich) (h2 : c'.bin = c.bin) (h3 : c'.cplx = c.cplx) :
     ∀ (vs : List V), plainList c' vs = plainList c vs
   | [] => by simp [plainList]
@@ -101,6 +112,11 @@ theorem plainSKeys_congr (c c' : Cfg) (h1 : c'.rich = c.rich) (h2 : c'.bin = c.b
   | [] => by simp [plainSKeys]
   | (k, v) :: es => by
       simp [plainSKeys, plain_congr c c' h1 h2 h3 v, plainSKeys_congr c c' h1 h2 h3 es]
+theorem plainAttrs_congr (c c' : Cfg) (h1 : c'.rich = c.rich) (h2 : c'.bin = c.bin) (h3 : c'.cplx = c.cplx) :
+    ∀ (as : List (String × V)), plainAttrs c' as = plainAttrs c as
+  | [] => by simp [plainAttrs]
+  | (k, v) :: as => by
+      simp [plainAttrs, plain_congr c c' h1 h2 h3 v, plainAttrs_congr c c' h1 h2 h3 as]
 end
 
 end Pcore.Ser
